@@ -53,7 +53,7 @@ CHECKS = {
     text='Theorems (Coq): whenever the static scope stack describes the dynamic frame chain (chain_matches), a symbol resolved to distance k reads and writes exactly the binding '
          'dynamic lookup finds; the resolver computes the distance of the innermost recording scope; resolution only annotates (erasing the distances from the resolved form '
          'gives the original form, all forms and scope stacks) and is idempotent; T-res for a fragment (ResolveLet.v): for every program built from literals, variables, the '
-         'read-only operators, set and let nested to ANY depth, the resolved program and the program as written give the same outcome (value or error, and final state) for every '
+         'read-only operators, while, print, set and let nested to ANY depth, the resolved program and the program as written give the same outcome (value or error, and final state) for every '
          'fuel, on every state whose global frame binds the start names -- the invariant "static scope stack describes the dynamic frame chain" is carried through every binder, '
          'one congruence lemma per operator, induction on fuel. PARTIAL: functions/closures, define in nested scopes, eval and macros are outside that fragment (the known finding '
          'lives there); those programs are decided by the differential check (resolved vs unresolved runs, exhaustive binder chains to depth 5).' + DIFF,
